@@ -299,6 +299,13 @@ def run(ctx):
     ri = P.get('ElementRaw::remove_internal')
     rr = ro_positions(ri, {'remove'})
     C.check(len(rr) == 1 and bool(dominated_by(ri, rr[0], calls(ri, r'ElementType::is_ref$'))), 'C05-PAIR-origins', 'remove_internal|deregisters-reference', 'remove_internal no longer removes a deleted reference from reference_origins')
+    # ... and it reads the key (the text of the reference) while the text is still there: no content removal precedes the deregistration
+    wipes = [o['pos'] for o in E.content_ops(ri) if o['kind'] in ('remove', 'replace') or o['op'] in ('clear', 'truncate', 'drain')]
+    keyreads = calls(ri, r'ElementRaw>?::character_data$|impl Element>::character_data$')
+    late = [(w_, r_) for w_ in wipes for r_ in rr if r_ in ri.reach_from(w_) and (not keyreads or any(k_ in ri.reach_from(w_) and r_ in ri.reach_from(k_) for k_ in keyreads))]
+    C.check(not late, 'C05-PAIR-origins', 'remove_internal|deregisters-before-the-text-is-dropped', 'remove_internal empties the content list before it deregisters the reference: character_data() then returns None, '
+            'the entry stays in the referrer list of the target forever (get_references_to() lists a deleted element as long as a handle keeps it alive; the key is never cleaned up)', ri.where(late[0][0]) if late else '',
+            sample={'fn': 'remove_internal', 'event': 'content.clear()', 'partner': 'remove_reference_origin(character_data()) happens before'})
     lb = P.get('AutosarModel::load_buffer_internal')
     src_ok = any(is_local_op(pl) and has_field(pl, 'ArxmlParser.references') for pos, role, pl, st_ in iter_uses(lb))
     # the collected references are appended to the referrer map inside a loop: get_mut + push / insert on a miss, or entry().or_default().push
@@ -338,6 +345,30 @@ def run(ctx):
         ok = len(wl) == 1 and not mixed and not two_deleg and len(direct) >= 2 and bool(rem_side) and bool(add_side) and all(fro.pos_dominates(wl[0], o['pos']) for o in direct)
         C.check(ok, 'C05-MUST-atomic-retarget', 'fix_reference_origins|one-lock-for-remove-and-add', 'fix_reference_origins no longer removes the referrer from the old list and adds it to the new list under one write lock of the model (found %d lock acquisitions, %d direct and %d delegated map operations): between the two halves the reference is in no referrer list' % (len(wl), len(direct), len(indirect)),
                 '%s:%d' % (fro.file, fro.line), sample={'fn': 'fix_reference_origins', 'write_locks': len(wl), 'direct_map_ops': len(direct)})
+    # the registering primitive registers on EVERY path: its callers have already changed the text of the reference and do not look at a
+    # result, so a path that returns without touching the map (timed lock not obtained, early return) loses the reference silently
+    C.rule('C05-MUST-register', 'AutosarModel::add_reference_origin passes a mutating operation on reference_origins on every path from its entry to its return, and the primitives that maintain the referrer map take the model lock blockingly (no try-lock whose failure skips the update)')
+    aro = P.find('AutosarModel::add_reference_origin')
+    if aro is None:
+        C.anchor_missing('C05-MUST-register', 'AutosarModel::add_reference_origin')
+    else:
+        muts = [o['pos'] for o in E.reforig_ops(aro) if o['op'] in ('insert', 'entry', 'get_mut', 'add')]
+        # get_mut alone is a lookup: the write through it is the push on its Some edge; the None edge inserts - so the obligation is
+        # "push or insert": take the pushes reachable from a get_mut as the mutation of that edge
+        pushes = [pos for pos, t in aro.iter_calls() if call_matches(t, r'(Vec::<T, A>|SmallVec::<A>)::push$')]
+        ins = [o['pos'] for o in E.reforig_ops(aro) if o['op'] in ('insert', 'entry', 'add')]
+        rets = [pos for pos, t in aro.iter_terms() if t['k'] == 'return']
+        okr = bool(rets) and bool(pushes or ins) and all(must_pass(aro, (0, 0), [r_], through=set(pushes) | set(ins)) for r_ in rets)
+        C.check(okr, 'C05-MUST-register', 'add_reference_origin|registers-on-every-path', 'add_reference_origin can return without having stored the referrer (a path around the push/insert, e.g. behind a timed try-lock): its callers have already written the reference text, '
+                'so the reference is in the model but in no referrer list - get_references_to() misses it and a later rename of the target does not rewrite it', '%s:%d' % (aro.file, aro.line),
+                sample={'fn': 'add_reference_origin', 'returns': len(rets), 'stores': len(pushes) + len(ins)})
+    for fn_ in ('AutosarModel::add_reference_origin', 'AutosarModel::remove_reference_origin', 'AutosarModel::fix_reference_origins'):
+        b_ = P.find(fn_)
+        if b_ is None:
+            continue
+        tl = calls(b_, r'RwLock::<R, T>::try_(write|read)\w*$|RwLock<.*>::try_(write|read)\w*$')
+        C.check(not tl, 'C05-MUST-register', '%s|blocking-model-lock' % fn_.split('::')[-1], '%s takes the model lock with a try-lock: when it is not obtained the update of the referrer map is skipped and nobody is told' % fn_, b_.where(tl[0]) if tl else '',
+                sample={'fn': fn_, 'lock': 'RwLock::write'})
     # ---- SIB-report --------------------------------------------------------------------------------
     cr = P.get('AutosarModel::check_references')
     gt = P.get('Element::get_reference_target')
